@@ -264,8 +264,8 @@ theorem def_parent_visits (B : String) (n id : PTree) (hu : DefParentSite B n id
   unfold indexDef
   simp only [hrb]
   obtain ⟨cv, ct, _, _⟩ := mkRec_cls B k
-  refine VisitsP.bind_cls (Ix10.preR_of_pass k fun R _ _ _ hv ht _ _ => Index.sameFileDefset_keeps hv ht)
-    (Index.sameFileDefset_keeps cv ct) fun ds => ?_
+  refine VisitsP.bind_cls (Ix10.preR_of_pass k fun R _ _ _ hv ht _ _ => Index.defDefset_keeps hv ht)
+    (Index.defDefset_keeps cv ct) fun ds => ?_
   rcases hu.name with hnone | ⟨nameValue, inner, sv, name, se, h1, h2, h3, h4, h5, h6⟩
   · simp only [hnone, pure_bind]
     refine VisitsP.bind_cls (by pre_prim nextAnonymousDefName_keeps) nextAnonymousDefName_keeps fun nm => ?_
